@@ -18,7 +18,7 @@ CLAIMED = {
  'C17': dict(
    technique='typestate check of the expectation blocks + static comparison of their literal lists with the SQLite catalog derived from the creators\' DDL and from the reference dumps; dataflow check of the validate helpers',
    text='Exhaustive static check of the validator: all expectation blocks reachable from each class\'s verify() (1275 block instances, helper parameters bound to call-site literals, virtual calls resolved per dynamic class) are read from the clang AST; V1 checks their iterator typestate (validate / ++iter alternation, own iterators, validate_no_more terminator); V2 requires the literal expectations to equal, entry by entry and in std::set order, what a catalog model of SQLite derives from the same class\'s DDL, and every table / index / index column to be covered by a block; V3 requires the same against each of the 57 reference dumps; V4 checks by dataflow that each validate helper compares every listed attribute with the entry member of the same meaning and throws database_inconsistency. Together these imply the reject side for every single structural deviation the property lists, which no existing test exercises.',
-   note='Trusted: clang AST; the catalog model of PRAGMA table_info/index_list/index_info/sqlite_master (cross-validated: it reproduces all hand-written expectation blocks, which pass on real SQLite in the pinned suite). Views\' columns are only checked where the validator has a block (2.x validators have none; outside the property\'s list). Trigger and view bodies are outside the property.',
+   note='Trusted: clang AST; the catalog model of PRAGMA table_info/index_list/index_info/sqlite_master (cross-validated: it reproduces all hand-written expectation blocks, which pass on real SQLite in the pinned suite). Since the hunt round: view columns are required to have a block (V8: the 2.x validators have none - known findings), the column listing must show generated columns (V7, known finding) and a failure of the validator\'s own statements must surface as database_inconsistency (V9). Not decided: the key expression, sort order and collation of an index (not among the deviations the property lists); trigger and view bodies.',
    ref='DESIGN.md 4 C17'),
  'C05': dict(
    technique='abstract interpretation over the clang AST (cursor / interval domain with linear lower bounds, inferred loop invariants, helpers inlined) + finite evaluation of the inflate status handling',
@@ -178,8 +178,11 @@ ADDED5 = {
  'C08': 'K7: add_track establishes before its first write that the track id names a row of Track and that its own crate exists.',
  'C10': 'N7: the creators refuse when any file the load side probes or demands already exists (rule X5 of C12).',
  'C12': 'X5: every function that opens the files of a new on-disk library refuses when a file the layout probe or a loader looks at is already there.',
+ 'C13': 'Y4 now evaluates the legacy branch for every enumerator (a 2.x / 3.x triple in a legacy directory is refused) and base_engine_library::load (a 1.x triple in a Database2 file is refused); Y7: each stored version component must have storage class integer (typeof), else unsupported_database.',
+ 'C14': 'A7: creation is all-or-nothing (known finding); A8: multi-file transactions need a file-backed main database for an atomic COMMIT (known finding, 1.x).',
+ 'C17': 'V7: columns are listed with table_xinfo (known finding); V8: every view has a column block (known findings for the 2.x views); V9: SQLite errors inside the validator are converted to database_inconsistency.',
  'C15': 'U2 accepts i - k under a loop that starts at a literal >= k; U11: every floating to integer conversion has its operand proved inside the target range by dominating tests of both limits, one of which held as written (excludes NaN).',
- 'C18': 'B10: every per-column accessor works on the type of the row field it stands for (four known findings, one root cause).',
+ 'C18': 'B11: get / remove name their row by a complete key of the table (known finding: playlist_entity_table); B12: a row field whose column does not exist in the schema range is rejected when engaged, not dropped. B10: every per-column accessor works on the type of the row field it stands for (four known findings, one root cause).',
 }
 for _k, _v in ADDED5.items():
     CLAIMED[_k]['text'] += ' Later: ' + _v
